@@ -536,8 +536,14 @@ func init() {
 		e := ex.freshErr(st, "urlparse")
 		return tup(Val{T: c.results().At(0).Type(), L: []string{ite(isErr, "0", ref)}}, Val{T: errType(), L: []string{ite(isErr, e.L[0], "0"), ite(isErr, e.L[1], "0")}})
 	}
+	s["(*net/url.URL).Port"] = func(ex *Exec, fr *Frame, st *State, c *callCtx) Val {
+		return Val{T: types.Typ[types.String], L: []string{app(ex.declFun("uf|urlport", []string{sInt}, sStr), c.args[0].L[0])}}
+	}
+	s["(*net/url.URL).Hostname"] = func(ex *Exec, fr *Frame, st *State, c *callCtx) Val {
+		return Val{T: types.Typ[types.String], L: []string{app(ex.declFun("uf|urlhost", []string{sInt}, sStr), c.args[0].L[0])}}
+	}
 	s["strconv.ParseUint"] = func(ex *Exec, fr *Frame, st *State, c *callCtx) Val {
-		v := ex.fresh("parsed", bv64)
+		v := ex.def("parsed", bv64, app(ex.declFun("uf|parseuint", []string{sStr}, bv64), c.args[0].L[0]))
 		e := ex.maybeErr(st, "parseuint")
 		bits := c.args[2].L[0]
 		// on success the value fits into bitSize bits (bitSize 0 means 64)
@@ -600,7 +606,20 @@ func init() {
 
 	// ---- crop hashes (github.com/mycoria/crop) ----
 	hashValid := func(ex *Exec, h string) string {
-		return app(ex.declFun("uf|hashvalid", []string{sStr}, sBool), h)
+		f := ex.declFun("uf|hashvalid", []string{sStr}, sBool)
+		// the hash the module itself uses for addresses is a known one (trusted fact about github.com/mycoria/crop)
+		ex.axiom(app(f, ex.strLit("BLAKE3")))
+		return app(f, h)
+	}
+	s["crypto/ed25519.GenerateKey"] = func(ex *Exec, fr *Frame, st *State, c *callCtx) Val {
+		pb, sb := ex.newRef(st, "pubkey"), ex.newRef(st, "privkey")
+		ex.havocMemBase(st, types.Typ[types.Uint8], pb)
+		ex.havocMemBase(st, types.Typ[types.Uint8], sb)
+		isErr := ex.fresh("fails.genkey", sBool)
+		e := ex.freshErr(st, "genkey")
+		return tup(Val{T: c.results().At(0).Type(), L: []string{ite(isErr, "0", pb), bvLit(0, 64), ite(isErr, bvLit(0, 64), bvLit(32, 64)), ite(isErr, bvLit(0, 64), bvLit(32, 64))}},
+			Val{T: c.results().At(1).Type(), L: []string{ite(isErr, "0", sb), bvLit(0, 64), ite(isErr, bvLit(0, 64), bvLit(64, 64)), ite(isErr, bvLit(0, 64), bvLit(64, 64))}},
+			Val{T: errType(), L: []string{ite(isErr, e.L[0], "0"), ite(isErr, e.L[1], "0")}})
 	}
 	s["(github.com/mycoria/crop.Hash).IsValid"] = func(ex *Exec, fr *Frame, st *State, c *callCtx) Val {
 		return boolV(hashValid(ex, c.args[0].L[0]))
@@ -669,7 +688,7 @@ func init() {
 		return boolV(app("bvult", c.args[0].L[0], c.args[1].L[0]))
 	}
 	s["(net/netip.Prefix).Contains"] = func(ex *Exec, fr *Frame, st *State, c *callCtx) Val {
-		f := ex.declFun("prefixContains", []string{sAddr, sBV(8), sAddr}, sBool)
+		f := ex.declFun("uf|prefixContains", []string{sAddr, sBV(8), sAddr}, sBool)
 		p := c.args[0]
 		if len(p.L) >= 2 {
 			return boolV(ex.def("pfx", sBool, app(f, p.L[0], p.L[1], c.args[1].L[0])))
